@@ -222,9 +222,14 @@ class GroupValidator:
                     error_code = ValidationErrors.HED_TAG_REPEATED_GROUP
                     found_group = child
                     base_steps_up = 0
-                    while isinstance(found_group, list):
+                    while isinstance(found_group, list) and found_group:
                         found_group = found_group[0]
                         base_steps_up += 1
+                    if isinstance(found_group, list):
+                        # Repeated EMPTY groups have no member to locate the group by; each one is already
+                        # reported as an empty group.
+                        prev_child = child
+                        continue
                     for _ in range(base_steps_up):
                         found_group = found_group._parent
                     validation_issues += ErrorHandler.format_error(error_code, found_group)
